@@ -3,7 +3,8 @@
 From Coq Require Import List ZArith QArith Qcanon Bool Arith.
 From Dimod Require Import Base.Util Model.Poly Model.HPoly Proofs.PolyFacts Proofs.HPolyFacts.
 From Dimod Require Model.Adj Proofs.AdjDense Model.FixPy Proofs.FixPyFacts.
-From Dimod Require Model.Expr Model.FixCopy Proofs.FixCopyFacts Proofs.FixCopyBack Proofs.ExprFacts Proofs.CqmSim.
+From Dimod Require Model.Expr Model.FixCopy Proofs.FixCopyFacts Proofs.FixCopyBack Proofs.FixCopyKeep Proofs.ExprFacts Proofs.CqmSim.
+From Dimod Require Model.HPolyPy Proofs.HPolyPyFacts.
 Import ListNotations.
 Open Scope Qc_scope.
 
@@ -207,10 +208,67 @@ Theorem C03_fix_copy_back_precondition_holds :
 Proof. exact FixCopyBack.fix_copy_back_pre_holds. Qed.
 Print Assumptions C03_fix_copy_back_precondition_holds.
 
+(* the re-indexing fix_variables_expr really induces on local indices (rank among the surviving local
+   variables of the source, = the position the linear phase gives them in the destination) is strictly
+   monotone, so the statement above applies to every source expression and every choice of fixed variables *)
+Theorem C03_fix_copy_local_reindexing_monotone :
+  forall vars o2n, FixCopyBack.mono_keep (FixCopyKeep.local_keep vars o2n).
+Proof. exact FixCopyKeep.local_keep_mono. Qed.
+Print Assumptions C03_fix_copy_local_reindexing_monotone.
+
+Theorem C03_fix_copy_local_reindexing_is_dst_index :
+  forall vars (lin : list Qc) o2n i k,
+    length lin = length vars -> (i < length vars)%nat -> FixCopy.o2n_get o2n (nth i vars 0%nat) = Some k ->
+    exists r, FixCopyKeep.local_keep vars o2n i = Some r /\
+              nth r (FixCopyFacts.new_vars_of o2n (combine vars lin)) 0%nat = k.
+Proof. exact FixCopyKeep.local_keep_is_dst_index. Qed.
+Print Assumptions C03_fix_copy_local_reindexing_is_dst_index.
+
+Theorem C03_fix_copy_back_calls_ok :
+  forall vars (lin : list Qc) o2n (src dst : Adj.qm),
+    Adj.Inv src -> Adj.Inv dst -> (forall x, Adj.nb dst x = []) ->
+    length lin = length vars ->
+    Adj.nvars dst = length (FixCopyFacts.new_vars_of o2n (combine vars lin)) ->
+    FixCopyBack.calls_ok (FixCopy.back_calls (FixCopyKeep.local_keep vars o2n) src) dst
+    /\ FixCopy.rebuild (FixCopyKeep.local_keep vars o2n) src dst = FixCopy.rebuild_add (FixCopyKeep.local_keep vars o2n) src dst
+    /\ Adj.Inv (FixCopy.rebuild (FixCopyKeep.local_keep vars o2n) src dst).
+Proof. exact FixCopyKeep.fix_copy_back_calls_ok. Qed.
+Print Assumptions C03_fix_copy_back_calls_ok.
+
 Theorem C03_lower_iteration_is_the_polynomial :
   forall m : Adj.qm, Adj.Inv m -> FixCopy.lower_iter m = p_quad (Adj.abs m).
 Proof. exact FixCopyBack.lower_iter_is_abs_quad. Qed.
 Print Assumptions C03_lower_iteration_is_the_polynomial.
+
+(* ---------- higherordercomposites.fix_variables, the python loop as repaired (set difference, v *= value,
+   accumulating dict, final `()` item) equals the specification hfix ---------- *)
+Theorem C03_poly_fix_loop_energy :
+  forall (fixed : list (nat * Qc)) (p : hpoly) (s : sample),
+  HPolyPyFacts.terms_nodup p ->
+  henergy (HPolyPy.fix_variables_py fixed p) s = henergy p (override fixed s).
+Proof. exact HPolyPyFacts.fix_variables_py_energy. Qed.
+Print Assumptions C03_poly_fix_loop_energy.
+
+Theorem C03_poly_fix_loop_coefficients :
+  forall (fixed : list (nat * Qc)) (p : hpoly),
+  HPolyPyFacts.terms_nodup p -> hpoly_eqb (HPolyPy.fix_variables_py fixed p) (hfix fixed p) = true.
+Proof. exact HPolyPyFacts.fix_variables_py_coeff. Qed.
+Print Assumptions C03_poly_fix_loop_coefficients.
+
+Theorem C03_poly_fix_loop_removes :
+  forall (fixed : list (nat * Qc)) (p : hpoly) (t : mono) (v : nat),
+  In t (HPolyPy.fix_variables_py fixed p) -> In v (fst t) -> lookup fixed v = None.
+Proof. exact HPolyPyFacts.fix_variables_py_removes. Qed.
+Print Assumptions C03_poly_fix_loop_removes.
+
+Theorem C03_poly_fix_loop_constant_item :
+  forall (fixed : list (nat * Qc)) (p : hpoly),
+  HPolyPy.fix_variables_py fixed p =
+  fst (HPolyPy.fix_loop_py fixed p) ++ [([], snd (HPolyPy.fix_loop_py fixed p))] /\
+  (forall t : mono, In t (fst (HPolyPy.fix_loop_py fixed p)) -> fst t <> []).
+Proof. exact HPolyPyFacts.fix_variables_py_has_offset. Qed.
+Print Assumptions C03_poly_fix_loop_constant_item.
+
 
 (* non-vacuity: 3 i^2 + 2 i + 5 i j + j with i := 2 is 49 at j = 3 *)
 Example C03_example :
